@@ -18,7 +18,11 @@ CHECKS = {
              "for every well-typed value of every supported type, with an arbitrary tail), wire-format theorems (bool 1/2, big-endian "
              "two's complement, address widths, 1-/3-byte prefix at the 255 and 65535 boundaries), error branches. The code is tied by "
              "exhaustive enumeration of the 8/16-bit types and boundary+random correspondence for the wide ones, and the executable "
-             "predicate Ipfix.C15.holdsRT is evaluated on every implementation observation.",
+             "predicate Ipfix.C15.holdsRT is evaluated on every implementation observation (model_holdsRT: the model's own observation "
+             "satisfies it). Model/RecordBuf.lean is an EXACT model of dataRecord.GetBuffer for all element lists (ill-typed values, "
+             "odd declared lengths, MAC spill); recordBuf_length (bytes written = reported length, unconditionally) and "
+             "recordBuf_eq_encodeRecord (it equals the specification encoder wherever that accepts) are proved, and `ie recbuf` compares it "
+             "byte for byte with the implementation.",
         design="4 (C15)",
         note="Go's typed constructors are assumed to carry the given bit patterns; float values never undergo arithmetic."),
 }
@@ -31,7 +35,7 @@ CHECKS["C03"] = dict(
          "registry hypothesis discharged from the regenerated registry by decide), decode_bounded (each record consumed >= 1 byte), "
          "decode_exact (the body is complete records per the independent relation Slices/IsRecord/IsField plus padding shorter than the "
          "minimum record; values are the per-type decodings of exactly those payloads), decode_template_exact (ids and enterprise numbers "
-         "as on the wire, in order). Tied to the code by three packet generators x degenerate template states x three modes; the "
+         "as on the wire, in order), decode_complete / slicing_unambiguous (every slicing the grammar admits is the one the decoder finds). Tied to the code by three packet generators x degenerate template states x three modes; the "
          "specification's expected observation is evaluated on every implementation observation.",
     design="4 (C03), 5 (D1-D4b fixed)",
     note="bytes.Buffer / binary.Read modelled as list take/drop; the message channel is drained by the harness; a 20 s watchdog stands for non-termination.")
@@ -42,7 +46,7 @@ CHECKS["C04"] = dict(
          "data_uses_last_valid / data_rejected_without_template, frame (other domains / ids have no influence), bad_template_erases, for the "
          "specification decodePacketSpec; code_eq_spec_off_cut + templates_refine_partial show the code's bookkeeping equals the specification "
          "except for a template set cut right after its id, where d13_witness proves the full statement false (known finding D13, pinned by an "
-         "existing test). All histories up to length 3 (4 ending in data) over a 20-symbol alphabet are run against the real decoder.",
+         "existing test). All histories up to length 3 (4 ending in data) over a 32-symbol alphabet are run against the real decoder.",
     design="4 (C04), 5 (D13)",
     note="strict mode, TCP (no expiry) in the correspondence; UDP expiry is C10.")
 
@@ -53,7 +57,8 @@ CHECKS["C17"] = dict(
          "delivered as exactly the payload bytes of its complete wire field), strict_data_eq_keep, drop_omits (drop = keep filtered to the known "
          "positions, same bytes consumed), known_fields_independent (cutting the unknown fields out of template and record yields exactly the "
          "known values - uses the completeness direction of the independent slicing relation), tie_no_empty_names (the empty-name marker cannot "
-         "collide with a decodable registry element). The same wire bytes are decoded by the real collector under the three modes and with the "
+         "collide with a decodable registry element); template level: strict_rejects_template_and_data, lenient_accepts_template, unknown_stand_in, "
+         "keep_delivers_payload (an unknown field carries exactly the payload the exporter wrote). The same wire bytes are decoded by the real collector under the three modes and with the "
          "unknown fields cut out; Ipfix.C17.holdsCase is evaluated on the implementation's eight observations per case; the regenerated "
          "registry table is compared with GetInfoElementFromID for 4 x 65536 keys.",
     design="4 (C17)",
@@ -100,17 +105,22 @@ CHECKS["C08"] = dict(
     text="Proved: send_ok (a successful SendSet writes exactly one message, reports its byte count, stamps the configured domain and the counter "
          "after adding this set's records; templates leave the counter unchanged), seq_law (after any session of successful sends the counter is "
          "start + data records transmitted, mod 2^32 - so wrap-crossing sessions are covered), failed_send_bumps_seq (documented behaviour outside "
-         "the statement). Sessions starting within 500 of 2^32 are run on the real exporter (overlay setter) and every header is parsed independently.",
+         "the statement), createMsg_header / sent_header (the 16 header bytes of every message: own length, export time handed in, NEW counter, "
+         "configured domain), seq_in_every_message (the per-message form of the law, on the header bytes of the i-th message of any session). "
+         "Sessions starting within 500 of 2^32 are run on the real exporter (overlay setter) and every header is parsed independently.",
     design="4 (C08)",
     note="export time is checked against the wall-clock second window of the call; failed attempts are outside C08.")
 CHECKS["C09"] = dict(
     engine="exp",
-    technique="Lean 4 proof (decision-logic theorems on SendSet: size bound, refusal leaves state, sanity check, registration only after transmission) + differential correspondence with invalid sends; two known findings",
+    technique="Lean 4 proof (decision-logic theorems on SendSet: size bound, refusal leaves state, sanity check, registration only after transmission; history theorem on the provenance of the template table) + differential correspondence with invalid sends; one known finding",
     text="Proved: size_bound, error_leaves_state, data_requires_registered_template, registered_only_after_sent (repair of D6), faithful_or_error "
-         "(a record with an unencodable value cannot be built, hence must be an error) and d12_witness. On the unchanged tree the full statement is "
-         "false in two listed ways: ill-typed values are transmitted altered (D5) and a set id different from the records' template id is "
-         "transmitted (D12); both are reported as KNOWN-FINDING with their failing inputs, any other violation is reported.",
-    design="4 (C09), 5 (D5, D6 fixed, D12)",
+         "(a record with an unencodable value cannot be built, hence must be an error), data_only_after_template_sent (history form: every "
+         "record of a transmitted data set names a template that an earlier successful template send of the same session carried, with that "
+         "field count), wire_set_id_is_a_sent_template + d12_refused (repair of D12), refusal_is_transparent, every_sent_message_parses (whatever "
+         "came before, a send that succeeds writes one message the independent parser accepts), d5_exact_witness (in the exact model of "
+         "GetBuffer an IPv6 value in an IPv4 element goes out as zeros). On the unchanged tree the full statement is false in one listed way: "
+         "ill-typed values are transmitted altered (D5), reported as KNOWN-FINDING with its failing inputs; any other violation is reported.",
+    design="4 (C09), 5 (D5, D6 and D12 fixed)",
     note="'nothing was written' is exact because the connection is an in-memory net.Conn.")
 
 CHECKS["C19"] = dict(
@@ -131,7 +141,8 @@ CHECKS["C01"] = dict(
     text="Proved: e2e_template (the collector model, fed the template message the exporter lays out, delivers and stores the same fields - id, "
          "enterprise, type, length, name, in order - under the same domain), e2e_data (with that template in force every record count and every "
          "well-typed value vector comes out bit-identical, IP addresses in canonical length, in every decoding mode), exporter_emits_wire (what the "
-         "exporter model's SendSet writes is exactly that layout), tie_lookup_self (each registry element is found under its own (enterprise, id)). "
+         "exporter model's SendSet writes is exactly that layout), e2e_send_data (the whole chain in one statement: set built by the builder model, "
+         "sent by the exporter model, decoded by the collector model that holds the template = the values handed in), tie_lookup_self (each registry element is found under its own (enterprise, id)). "
          "A real ExportingProcess is connected to a real CollectingProcess over the four transports and both address families (certificates "
          "minted at run time); every delivery is compared with the model's prediction and judged directly against what was handed to SendSet.",
     design="4 (C01)",
